@@ -41,7 +41,24 @@ def local_defs(fn, name):
                             out.append(("out-param", n, n))
                     else:
                         out.append(("other", n, n))
+        # a mutable iterator / pointer into the local handed to an algorithm that writes through it
+        for m in walk(x, into_sc=True):
+            if m.get("k") != "call" or (m.get("name") or "") not in MUTATING_ALGOS:
+                continue
+            for a in m.get("args", []):
+                a = ir.unwrap(a)
+                while isinstance(a, dict) and a.get("k") == "cast":
+                    a = ir.unwrap(a["e"])
+                if isinstance(a, dict) and a.get("k") == "call" and short(a.get("name") or "") in ("begin", "end", "data", "rbegin", "rend") and a.get("this") is not None:
+                    t = ir.unwrap(a["this"])
+                    if isinstance(t, dict) and t.get("k") == "ref" and t.get("decl") == "local:" + name and not (t.get("type") or "").startswith("const "):
+                        out.append(("out-param", m, m))
+                        break
     return out
+
+
+MUTATING_ALGOS = {"std::" + a for a in ("transform", "copy", "copy_n", "copy_if", "copy_backward", "move", "move_backward", "fill", "fill_n", "generate", "generate_n", "replace", "replace_if",
+                                        "reverse", "rotate", "sort", "stable_sort", "remove", "remove_if", "unique", "swap_ranges", "for_each", "iota", "partition", "shuffle", "next_permutation")}
 
 
 def carrier(fn, e, is_source, out_param_ok=None, accessor_ok=None, depth=0, seen=None):
